@@ -1,4 +1,5 @@
 SPECIFICATION Spec
+VIEW View
 CONSTRAINT Audit
 POSTCONDITION Finished
 CHECK_DEADLOCK FALSE
